@@ -17,8 +17,6 @@
 (***************************************************************************)
 EXTENDS PathWalk, Json
 
-Obs == ndJsonDeserialize("obs.ndjson")
-
 PathArg(o, i) == IF i = 1 THEN [d |-> o.case.d1, ps |-> o.case.p1] ELSE [d |-> o.case.d2, ps |-> o.case.p2]
 FlSet(o) == ToSet(o.case.fl)
 
@@ -31,8 +29,8 @@ Agree(m, t) ==
     [] m.k = "err"    -> t.k = "err" /\ t.e = m.e                 \* (t.k = "err": the creation failed too)
 
 \* everything the reference says about path argument i of the call of line o
-Ref(o, i) ==
-  LET F    == Forest(o.case.f)
+Ref(Cat, o, i) ==
+  LET F    == Cat[o.case.f]
       a    == PathArg(o, i)
       base == BaseOf(F, o.case.cwd, a.d, a.ps)
       mf   == Resolve(F, base, Rel(a.ps), FALSE)
@@ -50,9 +48,9 @@ ModelOK(rf, t) == Agree(rf.mf, t.f) /\ Agree(rf.mn, t.n)
 ClassOK(rf, s) == IF s.c = "syscall" THEN ~rf.exp.judged ELSE s.c \in rf.classes
 PathOK(rf, s)  == ~rf.exp.judged \/ (s.c # "syscall" /\ s.in /\ s.p \in rf.exp.paths)
 
-JudgeRec(o) ==
+JudgeRec(Cat, o) ==
   LET np  == NPaths(o.case.sc)
-      rf  == IF np = 1 THEN <<Ref(o, 1)>> ELSE <<Ref(o, 1), Ref(o, 2)>>     \* (a tuple: evaluated once)
+      rf  == IF np = 1 THEN <<Ref(Cat, o, 1)>> ELSE <<Ref(Cat, o, 1), Ref(Cat, o, 2)>>     \* (a tuple: evaluated once)
       full == Len(o.truth) = np /\ Len(o.seen) = np
       B   == IF full THEN { i \in 1..np : ~ClassOK(rf[i], o.seen[i]) \/ ~PathOK(rf[i], o.seen[i]) } ELSE {}
       v   == IF Len(o.truth) # np \/ \E i \in 1..np : ~ModelOK(rf[i], o.truth[i]) THEN "model"
@@ -69,8 +67,12 @@ JudgeRec(o) ==
                                      classes |-> SetToSeq(rf[i].classes), mf |-> rf[i].mf, mn |-> rf[i].mn]]]
 
 \* one verdict line per observation line, in order (each JudgeRec is evaluated exactly once)
-ASSUME ndJsonSerialize("verdicts.ndjson", [ i \in DOMAIN Obs |-> JudgeRec(Obs[i]) ])
-ASSUME PrintT(<<"judged", Len(Obs)>>)
+\* (the observation file and the catalogue are bound once: LET-bound names are memoised by TLC)
+ASSUME LET Cat == Catalogue
+           Obs == ndJsonDeserialize("obs.ndjson")
+       IN /\ NForests = Len(Cat)
+          /\ ndJsonSerialize("verdicts.ndjson", [ i \in DOMAIN Obs |-> JudgeRec(Cat, Obs[i]) ])
+          /\ PrintT(<<"judged", Len(Obs)>>)
 VARIABLE x
 Init == x = 0
 Next == UNCHANGED x
